@@ -592,3 +592,39 @@ Proof.
     apply (dir_edit s dn (set_d_args (upd_arg an (set_a_default d))) d0 _ (fun _ => eq_refl) Hu).
     apply in_or_app; right. apply in_or_app; right. exact Hc.
 Qed.
+
+(* ------------------------------------------------------------ the guard is exactly the open finding *)
+Theorem reportable_or_safe_retype e s :
+  applicable e s -> reportable e s \/ safe_retype e s.
+Proof.
+  intros Ha. destruct e; simpl in *; try (left; exact I).
+  - destruct Ha as (fs & f0 & Hu & Hf & Hne).
+    destruct (safe_out (f_type f0) t) eqn:E.
+    + right. exists fs, f0. auto.
+    + left. intros fs' f' Hu' Hf'. rewrite Hu in Hu'. inversion Hu'; subst.
+      rewrite Hf in Hf'. inversion Hf'; subst. exact E.
+  - destruct Ha as (fs & f0 & a & Hu & Hf & Hfa & Hne).
+    destruct (safe_in (a_type a) t) eqn:E.
+    + right. exists fs, f0, a. auto.
+    + left. intros fs' f' a' Hu' Hf' Ha'. rewrite Hu in Hu'. inversion Hu'; subst.
+      rewrite Hf in Hf'. inversion Hf'; subst. rewrite Hfa in Ha'. inversion Ha'; subst. exact E.
+  - destruct Ha as (fs & f0 & Hu & Hf & Hne).
+    destruct (safe_in (i_type f0) t) eqn:E.
+    + right. exists fs, f0. auto.
+    + left. intros fs' f' Hu' Hf'. rewrite Hu in Hu'. inversion Hu'; subst.
+      rewrite Hf in Hf'. inversion Hf'; subst. exact E.
+  - destruct Ha as (d0 & a & Hu & Hfa & Hne).
+    destruct (safe_in (a_type a) t) eqn:E.
+    + right. exists d0, a. auto.
+    + left. intros d' a' Hu' Ha'. rewrite Hu in Hu'. inversion Hu'; subst.
+      rewrite Hfa in Ha'. inversion Ha'; subst. exact E.
+Qed.
+
+Theorem reportable_excludes_safe_retype e s : reportable e s -> safe_retype e s -> False.
+Proof.
+  destruct e; simpl; try tauto.
+  - intros Hr (fs & f0 & Hu & Hf & _ & Hs). rewrite (Hr fs f0 Hu Hf) in Hs. discriminate.
+  - intros Hr (fs & f0 & a & Hu & Hf & Ha & _ & Hs). rewrite (Hr fs f0 a Hu Hf Ha) in Hs. discriminate.
+  - intros Hr (fs & f0 & Hu & Hf & _ & Hs). rewrite (Hr fs f0 Hu Hf) in Hs. discriminate.
+  - intros Hr (d0 & a & Hu & Ha & _ & Hs). rewrite (Hr d0 a Hu Ha) in Hs. discriminate.
+Qed.
